@@ -16,6 +16,7 @@ Soundness conventions
 from __future__ import annotations
 
 import builtins as _b
+import signal
 import time
 import traceback
 
@@ -28,6 +29,38 @@ class Unsupported(BaseException):
 
 class PathAbort(BaseException):
     """cut the current path (assumption violated / infeasible)"""
+
+
+class PathTimeout(BaseException):
+    """a single path (or a concrete replay) ran longer than the watchdog allows - e.g. the code under test loops forever"""
+
+
+PATH_TIMEOUT_S = 180
+
+
+def _on_alarm(signum, frame):
+    raise PathTimeout()
+
+
+class watchdog:
+    """with watchdog(seconds): ...  (process main thread only; no-op elsewhere)"""
+
+    def __init__(self, seconds=None):
+        self.seconds = seconds or PATH_TIMEOUT_S
+
+    def __enter__(self):
+        try:
+            self.old = signal.signal(signal.SIGALRM, _on_alarm)
+            signal.setitimer(signal.ITIMER_REAL, self.seconds)
+            self.armed = True
+        except ValueError:
+            self.armed = False
+
+    def __exit__(self, *a):
+        if self.armed:
+            signal.setitimer(signal.ITIMER_REAL, 0)
+            signal.signal(signal.SIGALRM, self.old)
+        return False
 
 
 CUR: "Explorer | None" = None  # the explorer of the running path
@@ -334,10 +367,14 @@ class Explorer:
         self.paths += 1
         res = self.result
         try:
-            res.value = fn(self)
+            with watchdog():
+                res.value = fn(self)
             res.status = "ok"
         except PathAbort:
             res.status = "abort"
+        except PathTimeout:
+            raise Unsupported("a single path ran longer than %d s (the code under test may loop forever on this input class); decisions so far: %d"
+                              % (PATH_TIMEOUT_S, len(self.decisions)))
         except Unsupported:
             raise
         except Exception as e:  # an exception escaping the harness: candidate finding
